@@ -193,7 +193,9 @@ func (p *Provider) ruleSetsChanged(evt fsnotify.Event) error {
 	switch {
 	case evt.Has(fsnotify.Create) || evt.Has(fsnotify.Write) || evt.Has(fsnotify.Chmod):
 		err = p.ruleSetCreatedOrUpdated(evt.Name)
-	case evt.Has(fsnotify.Remove):
+	case evt.Has(fsnotify.Remove) || evt.Has(fsnotify.Rename):
+		// a renamed file is not available under the old name any more. If the new name is
+		// in the watched directory as well, there will be a separate create event for it
 		err = p.ruleSetDeleted(evt.Name)
 	}
 
